@@ -1,7 +1,7 @@
 (* C06/Property.v — property theorems only. *)
 From Coq Require Import String List Bool.
-From Verif Require Import Base.Str C06.Model C06.Spec C06.Proofs C06.Reflect.
-From VerifGen Require Import C06Tables.
+From Verif Require Import Base.Str Base.Py C06.Model C06.Spec C06.Proofs C06.Reflect C06.Source.
+From VerifGen Require Import C06Tables C06Src.
 
 (* C06: for every outstanding set, InResponseTo placement, status, version and shape the modelled
    decision satisfies correlation, status, shape and the two completeness clauses. *)
@@ -26,3 +26,12 @@ Print Assumptions c06_table_injective.
 Theorem c06_spec_b_sound : forall x v, spec_b x v = true -> spec x v.
 Proof. exact spec_b_sound. Qed.
 Print Assumptions c06_spec_b_sound.
+
+(* tie to the source TEXT: AuthnResponse.check_subject_confirmation_in_response_to as translated from
+   /repo's current source on this run (coq/gen/C06Src.v, harness/py2coq.py) computes the model's
+   check_sc_irt, for every list of assertions (each with a Subject) and confirmations *)
+Theorem c06_source_check_sc_irt : forall i l ss,
+  subjects l = Some ss ->
+  exists b, check_sc_irt i l = Some b /\ src_check_sc_irt (enc_self ss) (PStr i) = PBool b.
+Proof. exact src_check_sc_irt_is_model. Qed.
+Print Assumptions c06_source_check_sc_irt.
